@@ -45,7 +45,9 @@ def unary(name):
 
 
 # ---------------------------------------------------------------------------------------------
-# ground instantiation of the lemma schemas of lemmas/real_analysis.smt2 at the occurring terms
+# ground instantiation of the lemma schemas at the occurring terms.  Every schema below is proved from Mathlib in
+# lemmas/real_analysis.lean (table: lemmas/SCHEMAS.md); lemmas/check_lean.sh (thorough tier) fails when an `add(...)` of
+# `lemma_instances` is not quoted verbatim there - add the theorem together with any new schema.
 # ---------------------------------------------------------------------------------------------
 
 
